@@ -2,6 +2,7 @@ package spine
 
 import (
 	"fmt"
+	"reflect"
 	"sync"
 
 	"github.com/enbility/ship-go/logging"
@@ -66,14 +67,30 @@ func (r *FunctionData[T]) UpdateData(remoteWrite, persist bool, newData *T, filt
 		return nil, model.NewErrorTypeFromString(fmt.Sprintf("partial updates are not supported for type '%s'", util.Type[T]().Name()))
 	}
 
-	if r.data == nil {
-		r.data = new(T)
+	// the update functions modify list items in place, but the lists are shared
+	// with the copies handed out by DataCopy, so always work on copies of the lists
+	// and only store the result if the update was successful and should be persisted
+	updatedData := new(T)
+	if r.data != nil {
+		*updatedData = *r.data
+		v := reflect.ValueOf(updatedData).Elem()
+		for i := 0; v.Kind() == reflect.Struct && i < v.NumField(); i++ {
+			if f := v.Field(i); f.Kind() == reflect.Slice && !f.IsNil() && f.CanSet() {
+				c := reflect.MakeSlice(f.Type(), f.Len(), f.Len())
+				reflect.Copy(c, f)
+				f.Set(c)
+			}
+		}
 	}
 
-	updater := any(r.data).(model.Updater)
+	updater := any(updatedData).(model.Updater)
 	data, success := updater.UpdateList(remoteWrite, persist, newData, filterPartial, filterDelete)
 	if !success {
 		return nil, model.NewErrorTypeFromString("update failed, likely not allowed to write")
+	}
+
+	if persist {
+		r.data = updatedData
 	}
 
 	return data, nil
